@@ -3,6 +3,8 @@
 package prog
 
 import (
+	_ "embed"
+	"encoding/json"
 	"fmt"
 	"go/ast"
 	"go/token"
@@ -49,7 +51,19 @@ type Program struct {
 	implMu    sync.Mutex
 	implCache map[*types.Func][]*ssa.Function
 	modTypes  []*types.Named
+
+	// anchor signatures: what every function anchor resolved to on the reference tree
+	// (anchor_sigs.json, embedded). An unexported anchor that no longer resolves by name
+	// is looked for by signature among the unexported functions of the same receiver
+	// (or package) that are not anchors themselves; a unique match is taken and noted.
+	anchorMu   sync.Mutex
+	SeenSigs   map[string]string // spec -> signature, recorded on successful resolution
+	Resolved   map[string]string // spec -> name it was resolved to by signature
+	anchorSigs map[string]string
 }
+
+//go:embed anchor_sigs.json
+var anchorSigsJSON []byte
 
 // Load type-checks ./... of dir (production files only) and builds SSA. A tree that
 // does not load or type-check is an error: it cannot be analysed.
@@ -290,33 +304,109 @@ func (p *Program) Fn(spec string) *ssa.Function {
 
 // FnObj resolves the same specs as Fn to the *types.Func.
 func (p *Program) FnObj(spec string) *types.Func {
+	f, pk, recv, name := p.fnObjByName(spec)
+	p.anchorMu.Lock()
+	defer p.anchorMu.Unlock()
+	if p.SeenSigs == nil {
+		p.SeenSigs = map[string]string{}
+		p.Resolved = map[string]string{}
+		p.anchorSigs = map[string]string{}
+		_ = json.Unmarshal(anchorSigsJSON, &p.anchorSigs)
+	}
+	if f != nil {
+		p.SeenSigs[spec] = sigString(f, pk)
+		return f
+	}
+	want, known := p.anchorSigs[spec]
+	if pk == nil || !known || name == "" || token.IsExported(name) {
+		return nil
+	}
+	// names of the same scope that are anchors themselves (and resolve) are not candidates
+	taken := map[string]bool{}
+	for other := range p.anchorSigs {
+		if g, _, _, n := p.fnObjByName(other); g != nil {
+			taken[g.FullName()] = true
+			_ = n
+		}
+	}
+	var cands []*types.Func
+	consider := func(g *types.Func) {
+		if g == nil || g.Exported() || taken[g.FullName()] {
+			return
+		}
+		if sigString(g, pk) == want {
+			cands = append(cands, g)
+		}
+	}
+	if recv == nil {
+		for _, n := range pk.Scope().Names() {
+			if g, ok := pk.Scope().Lookup(n).(*types.Func); ok {
+				consider(g)
+			}
+		}
+	} else if nt, ok := recv.Type().(*types.Named); ok {
+		for i := 0; i < nt.NumMethods(); i++ {
+			consider(nt.Method(i))
+		}
+	}
+	if len(cands) == 1 {
+		p.Resolved[spec] = cands[0].Name()
+		return cands[0]
+	}
+	return nil
+}
+
+// sigString: parameter and result types only (parameter names are free to change).
+func sigString(f *types.Func, pk *types.Package) string {
+	sig, ok := f.Type().(*types.Signature)
+	if !ok {
+		return ""
+	}
+	q := types.RelativeTo(pk)
+	tup := func(t *types.Tuple) string {
+		var parts []string
+		for i := 0; i < t.Len(); i++ {
+			parts = append(parts, types.TypeString(t.At(i).Type(), q))
+		}
+		return strings.Join(parts, ", ")
+	}
+	v := ""
+	if sig.Variadic() {
+		v = " variadic"
+	}
+	return "(" + tup(sig.Params()) + ") (" + tup(sig.Results()) + ")" + v
+}
+
+// fnObjByName is the plain lookup; it also returns the package, the receiver type name
+// (nil for a package function) and the function name the spec asks for.
+func (p *Program) fnObjByName(spec string) (*types.Func, *types.Package, *types.TypeName, string) {
 	// split pkg path from the rest at the first '.' after the last '/'
 	slash := strings.LastIndex(spec, "/")
 	dot := strings.Index(spec[slash+1:], ".")
 	if dot < 0 {
-		return nil
+		return nil, nil, nil, ""
 	}
 	pkgRel, rest := spec[:slash+1+dot], spec[slash+1+dot+1:]
 	pk := p.Pkg(pkgRel)
 	if pk == nil {
-		return nil
+		return nil, nil, nil, ""
 	}
 	rest = strings.NewReplacer("(", "", ")", "", "*", "").Replace(rest)
 	parts := strings.Split(rest, ".")
 	switch len(parts) {
 	case 1:
 		f, _ := pk.Scope().Lookup(parts[0]).(*types.Func)
-		return f
+		return f, pk, nil, parts[0]
 	case 2:
 		tn, _ := pk.Scope().Lookup(parts[0]).(*types.TypeName)
 		if tn == nil {
-			return nil
+			return nil, pk, nil, ""
 		}
 		obj, _, _ := types.LookupFieldOrMethod(types.NewPointer(tn.Type()), true, pk, parts[1])
 		f, _ := obj.(*types.Func)
-		return f
+		return f, pk, tn, parts[1]
 	}
-	return nil
+	return nil, pk, nil, ""
 }
 
 // IfaceMethod resolves "rel/pkg.Iface.Method" to the abstract method object.
